@@ -1,5 +1,7 @@
 # Engine-level harness: runs CodeWrapper / _build_packet of the implementation and the Gallina
 # models (PyIR.Engine.*) on the same inputs and reports differences.
+import copy
+
 import vlib
 
 ERR = {'DecodeError': 1, 'LeadInError': 2, 'LeadOutError': 3, 'IRStreamError': 4, 'TooManyBitsError': 5,
@@ -16,6 +18,16 @@ def err_code(e):
 
 def modelled_H(p):
     return p['eclass'] == 'H' and not p['middle']
+
+
+PLACEHOLDER = -999999999999
+
+
+def modelled_C(p):
+    """CodeWrapper paths inside the model PyIR.Engine.ParseM.parseC: pair tables (halfbit or Manchester stream encoding),
+    no middle timings, no placeholder at the end of the lead-in (the one branch of the Manchester loop left out)."""
+    return p['eclass'] in ('H', 'M') and not p['middle'] and not (p['lead_in'] and p['lead_in'][-1] == PLACEHOLDER) \
+        and all(isinstance(b, list) and len(b) == 2 for b in p['bursts'])
 
 
 def real_parseH(p, code, tol, repeat=False):
@@ -46,6 +58,42 @@ def coq_parse_case(p, code, tol, repeat=False):
                                      coq_ptable(p['bursts']), vlib.zlist(code))
 
 
+def modelled_MD(p):
+    """Manchester tables with exactly one positional middle-timing entry ({'start','stop','bursts'}: the RC6 family): inside the
+    model PyIR.Engine.ParseMD.parseMD."""
+    return p['eclass'] == 'M' and len(p['middle']) == 1 and isinstance(p['middle'][0], dict) \
+        and not (p['lead_in'] and p['lead_in'][-1] == PLACEHOLDER) \
+        and all(isinstance(b, list) and len(b) == 2 for b in p['bursts']) \
+        and all(isinstance(b, (list, tuple)) and len(b) == 2 for b in p['middle'][0]['bursts'])
+
+
+def real_parseMD(p, code, tol):
+    """CodeWrapper on the full tables of protocol p including its middle timings; canonical outcome."""
+    from pyIRDecoder import code_wrapper
+    try:
+        cw = code_wrapper.CodeWrapper(p['encoding'], p['lead_in'][:], p['lead_out'][:], copy.deepcopy(p['middle']),
+                                      [b[:] for b in p['bursts']], tol, list(code))
+    except Exception as e:  # noqa
+        return [err_code(e)]
+    bits = cw.bits
+    return [0, len(bits)] + [int(b) for b in bits] + list(cw)
+
+
+def corr_parseMD(ctx, items, name='corr_parseMD'):
+    """items: list of (p, code, tol, tag) for protocols with modelled_MD.  Returns disagreements or None."""
+    cases = []
+    for p, code, tol, tag in items:
+        md = p['middle'][0]
+        cases.append(('(%s, %s, %s, %s, (%s, %s, %s), %s)' % (
+            vlib.z(tol), vlib.zlist(p['lead_in']), vlib.zlist(p['lead_out']), coq_ptable(p['bursts']),
+            vlib.z(md['start']), vlib.z(md['stop']), coq_ptable(md['bursts']), vlib.zlist(code)), real_parseMD(p, code, tol)))
+    bad = vlib.run_model_cases(ctx, name, 'Require Import PyIR.Base.Result PyIR.Engine.ParseMD.', 'run_parseMD',
+                               '(Z * list Z * list Z * list (Z * Z) * (Z * Z * list (Z * Z)) * list Z)', cases, shard=300)
+    if bad is None:
+        return None
+    return [(items[i], cases[i][1], o) for i, o in bad]
+
+
 PARSE_IMPORTS = 'Require Import PyIR.Base.Result PyIR.Engine.EngineRun.'
 PARSE_TYPE = '(Z * list Z * list Z * list (Z * Z) * list Z)'
 
@@ -55,7 +103,7 @@ def corr_parseH(ctx, items, name='corr_parse'):
     cases = []
     for p, code, tol, repeat, tag in items:
         cases.append((coq_parse_case(p, code, tol, repeat), real_parseH(p, code, tol, repeat)))
-    bad = vlib.run_model_cases(ctx, name, PARSE_IMPORTS, 'run_parseH', PARSE_TYPE, cases, shard=300)
+    bad = vlib.run_model_cases(ctx, name, PARSE_IMPORTS, 'run_parseC', PARSE_TYPE, cases, shard=300)
     if bad is None:
         return None
     return [(items[i], cases[i][1], o) for i, o in bad]
@@ -123,6 +171,22 @@ def fresh_encode(p, params, **kw):
     """encode on a fresh instance; returns (code, None) or (None, exception)."""
     vlib.drain_workers()
     with class_guard(p['cls']):
+        try:
+            return p['cls']().encode(**params, **kw), None
+        except Exception as e:  # noqa
+            return None, e
+
+
+def second_encode(p, params, prior_kw, **kw):
+    """The encode that FOLLOWS an earlier encode of the same key in the same process (another fresh instance, class-level tables
+    not restored in between): returns (code, None) or (None, exception).  The class tables are restored afterwards."""
+    vlib.drain_workers()
+    with class_guard(p['cls']):
+        try:
+            p['cls']().encode(**params, **prior_kw)
+        except Exception:  # noqa
+            pass
+        vlib.drain_workers()
         try:
             return p['cls']().encode(**params, **kw), None
         except Exception as e:  # noqa
